@@ -1,6 +1,8 @@
 package limiter
 
 import (
+	"errors"
+
 	"github.com/gofiber/fiber/v3"
 )
 
@@ -22,4 +24,18 @@ func New(config ...Config) fiber.Handler {
 
 	// Return the specified middleware handler.
 	return cfg.LimiterMiddleware.New(cfg)
+}
+
+// statusAfterNext returns the status the client is going to see: a handler that returned
+// an error has not produced its response yet, the error handler will (with the code of a
+// *fiber.Error, else 500).
+func statusAfterNext(c fiber.Ctx, err error) int {
+	if err == nil {
+		return c.Response().StatusCode()
+	}
+	var fiberErr *fiber.Error
+	if errors.As(err, &fiberErr) {
+		return fiberErr.Code
+	}
+	return fiber.StatusInternalServerError
 }
